@@ -624,7 +624,7 @@ def trace_controls(ctx, ct):
     idx = {k: [i for i, e in enumerate(evs) if e["ev"] == k] for k in ("Fsync", "Rename", "OpenDir", "Write", "Close", "Open")}
     fs_file = [i for i in idx["Fsync"] if evs[i].get("what") == "file"]
     fs_dir = [i for i in idx["Fsync"] if evs[i].get("what") == "dir"]
-    if not (fs_file and fs_dir and idx["Rename"] and idx["OpenDir"] and idx["Write"]):
+    if not (fs_file and idx["Rename"] and idx["OpenDir"] and idx["Write"]):
         raise InfraError("control case %s lacks the expected events: %s" % (ct.rec["case"], ct.sig))
     eof = [{"ev": "Eof", "case": "", "src": 0}]
     out = []
@@ -665,7 +665,8 @@ def trace_controls(ctx, ct):
     rows.insert(fs_file[0], dict(evs[fs_file[0]]))
     out.append(("harmless-double-fsync", True, rows + eof))
     # the statement does not need the directory fsync (a lost rename leaves Old)
-    out.append(("no-dir-fsync-still-old-or-new", True, [e for i, e in enumerate(evs) if i != fs_dir[0]] + eof))
+    if fs_dir:
+        out.append(("no-dir-fsync-still-old-or-new", True, [e for i, e in enumerate(evs) if i != fs_dir[0]] + eof))
     return out
 
 
